@@ -256,6 +256,14 @@ def rt_cases(draw):
     n = draw(st.integers(1, 6))
     t = draw(st.integers(2, 10))
     vals = [[round(draw(st.floats(-1, 1, allow_nan=False)) * draw(_mag), draw(st.integers(0, 8))) for _ in range(t)] for _ in range(n)]
+    long_t = draw(st.sampled_from([0] * 12 + [1001, 1460, 3000]))
+    if long_t:
+        # long series (more points than any printing threshold), values from a formula
+        import math
+
+        n = min(n, 3)
+        mag, dec = draw(_mag), draw(st.integers(1, 6))
+        vals = [[round(math.sin(0.37 * k + i) * mag, dec) for k in range(long_t)] for i in range(n)]
     kind = draw(st.sampled_from(["none", "str", "str_mixed", "int0", "int1", "float", "str_punct"]))
     if kind == "none":
         labels = None
